@@ -1,5 +1,7 @@
 //go:build verif && (!amd64 || purego)
 
-package fp25519
+package fp25519_test
 
-func c06Backend() string { return "generic" }
+import "github.com/cloudflare/circl/internal/verifc06"
+
+func init() { verifc06.RegisterBackend("fp25519", func() string { return "generic" }) }
